@@ -28,7 +28,7 @@ def plan(tier):
                 'acknowledged on that database; after every acknowledged Destroy 12 probes by 3 identities must answer '
                 'exactly as for a never-issued identifier, Locate must not list it, and all other objects must be '
                 'unchanged; a cell is (creating operation, after-restart kind) / (probe, identity)',
-        'min_monitor': {'destroys_acknowledged_beside_other_clients': 100, 'objects_born_and_destroyed_in_one_batch': 50, 'identifiers_issued': 1000, 'destroys_acknowledged': 300, 'post_destroy_probes': 3000,
+        'min_monitor': {'creations_naming_an_identifier': 100, 'destroys_acknowledged_beside_other_clients': 100, 'objects_born_and_destroyed_in_one_batch': 50, 'identifiers_issued': 1000, 'destroys_acknowledged': 300, 'post_destroy_probes': 3000,
                         'restarts': 100, 'bystander_checks': 300, 'batches_with_a_failing_last_item': 150},
         'assumptions': ['an identifier counts as issued when a success response carrying it reached the client',
                         'a child killed inside a request may or may not have committed it; identifiers it never '
@@ -180,7 +180,7 @@ def run_case(ctx, case):
                 version = rng.choice(rig.VERSIONS)
                 act = rng.choice(('create', 'create', 'register', 'register', 'create_key_pair', 'derive', 'destroy',
                                   'destroy', 'destroy', 'destroy_newest_then_create', 'restart', 'abandon', 'kill',
-                                  'lifecycle', 'lifecycle', 'locked', 'batch', 'batch', 'born-and-destroyed'))
+                                  'lifecycle', 'lifecycle', 'locked', 'batch', 'batch', 'born-and-destroyed', 'claim-identifier'))
                 if act == 'create':
                     r = srv.send([op_create(policy='open' if version < (2, 0) else None, names=['k%d' % step])], ident, version)
                     if r.error is None and r.ok():
@@ -324,6 +324,28 @@ def run_case(ctx, case):
                                                   'failed (%s); no such object is stored' % (label, u, items[-1][0]), {'answers': r.brief()})
                                 else:
                                     live[u] = ident[0]
+                elif act == 'claim-identifier':
+                    # a creating request whose template names the identifier it would like - one that was destroyed, one that is in
+                    # use, one not issued yet: identifiers are the server's to give; whatever it answers, a destroyed one stays dead
+                    # and what it issues is fresh
+                    claim = rng.choice(sorted(destroyed)) if destroyed and rng.random() < 0.7 else \
+                        rng.choice((rng.choice(sorted(live)) if live else '1', str(max(int(u) for u in issued) + 50)))
+                    uattr = rig.attr(E.AttributeType.UNIQUE_IDENTIFIER, claim)
+                    op = rng.choice((op_create(names=['cl%d' % step], extra=[uattr]),
+                                     op_register('opaque', secret_opaque(b'cl-%d' % step), common_attrs(names=['clo%d' % step]) + [uattr]),
+                                     op_register('secret', secret_data(b'cl-%d' % step), common_attrs(names=['cls%d' % step]) + [uattr]),
+                                     op_create_key_pair(common=[uattr])))
+                    try:
+                        r = srv.send([op], ident, version)
+                    except Exception:
+                        continue
+                    ctx.count('creations_naming_an_identifier')
+                    if r.error is None and r.ok():
+                        for u in [k[2] for k in r.payload()[2] if k[1] == T.TEXT]:
+                            new_uid(u, 'claimed:%s' % ('destroyed' if claim in destroyed else 'other'))
+                            live[u] = ident[0]
+                    if claim in destroyed:
+                        check_dead(ctx, srv, claim, helper, rng)
                 elif act == 'born-and-destroyed':
                     # one request creates an object, destroys it and refers to it again (by the identifier it was given - the
                     # next one in sequence - and through the ID placeholder): from the acknowledged Destroy on the identifier
